@@ -191,11 +191,11 @@ func cmdDriveShortcut(args []string) error {
 	fromLists := len(pats)
 	labelPats := map[string]bool{}
 	for i := 0; i < n/4; i++ {
-		p := []string{"||", "|http://", "", "", "||", "https://", "|https://", "://"}[rnd.Intn(8)] + fill(rnd, 2+rnd.Intn(5)) + ".example"
+		p := []string{"||", "|http://", "", "", "||", "https://", "|https://", "://", "http*", "https^", "|http*"}[rnd.Intn(11)] + fill(rnd, 2+rnd.Intn(5)) + ".example"
 		for k := rnd.Intn(3); k > 0; k-- {
 			p += []string{"^", "*", "/", "/*/", "^*"}[rnd.Intn(5)] + fill(rnd, 1+rnd.Intn(8))
 		}
-		p += []string{"", "^", "|", "^|", "*"}[rnd.Intn(5)]
+		p += []string{"", "^", "|", "^|", "*", "/*", "/*"}[rnd.Intn(7)]
 		if i%9 == 7 {
 			// "/label.": for a hostname request such a pattern is matched against "http://<hostname>"
 			p = "/" + []string{"zone0", "cdn-z9", "a0z", "x", "ads_1"}[rnd.Intn(5)] + fill(rnd, rnd.Intn(3)) + "."
@@ -291,7 +291,7 @@ func cmdDriveShortcut(args []string) error {
 // nameOfPattern: the run of name characters at the start of the pattern, behind "||", "|", a scheme or "://"
 func nameOfPattern(p string) string {
 	p = strings.TrimLeft(p, "|")
-	for _, sch := range []string{"https://", "http://", "://"} {
+	for _, sch := range []string{"https://", "http://", "://", "https^", "http^", "https*", "http*"} {
 		p = strings.TrimPrefix(p, sch)
 	}
 	n := 0
